@@ -116,6 +116,7 @@ def finish(pid: str, tier: str, acc: Acc, coverage: Dict[str, Any], t0: float,
     cov = dict(coverage)
     cov.setdefault("samples", acc.samples[:8] or [{"note": "no sample recorded"}])
     cov["distinct_outcomes"] = len(acc.outcomes)
+    cov["distinct_outcomes_note"] = "vacuity indicator; digests are kept up to 100 000 per work unit and 2 000 000 per run"
     cov["classes_hit"] = dict(sorted(acc.classes.items()))
     cov["units_done"] = acc.units_done
     cov["units_total"] = acc.units_total
